@@ -370,6 +370,110 @@ def _dec_controls(r):
     return out
 
 
+def _dec_auth(r):
+    c, k, n, _hl, _ln = r.peek()
+    if c != CONTEXT:
+        raise Malformed("authentication choice is not context-specific")
+    if n == 0 and not k:
+        return {"t": "Simple", "password": r.text("simple", CONTEXT, 0)}
+    if n == 3 and k:
+        sr = r.sub(CONTEXT, 3, "sasl")
+        out = {"t": "Sasl", "mechanism": sr.text("mechanism"), "credentials": None}
+        if sr.more():
+            out["credentials"] = sr.octs("credentials").hex()
+        if sr.more():
+            raise Malformed("trailing data in SaslCredentials")
+        return out
+    if n == 1024 and not k:  # the harness' own custom credential (documented example)
+        u, _, pw = r.text("custom auth", CONTEXT, 1024).partition(":")
+        return {"t": "CustomAuth", "username": u, "password": pw}
+    s0, e0 = r.take(c, k, n, "auth")
+    return {"t": "Other", "tag": n, "raw": bytes(r.buf[s0:e0]).hex()}
+
+
+_AVA = {3: "Equality", 5: "GreaterOrEqual", 6: "LessOrEqual", 8: "ApproxMatch"}
+
+
+def _dec_filter(r, depth):
+    if depth > 200:
+        raise Malformed("filter nested too deeply for the reference decoder")
+    c, k, n, _hl, _ln = r.peek()
+    if c != CONTEXT:
+        raise Malformed("filter choice is not context-specific")
+    if n in (0, 1) and k:
+        fr = r.sub(CONTEXT, n, "and/or")
+        fs = []
+        while fr.more():
+            fs.append(_dec_filter(fr, depth + 1))
+        return {"t": "And" if n == 0 else "Or", "filters": fs}
+    if n == 2 and k:
+        fr = r.sub(CONTEXT, 2, "not")
+        f = _dec_filter(fr, depth + 1)
+        if fr.more():
+            raise Malformed("trailing data in not filter")
+        return {"t": "Not", "filter": f}
+    if n in _AVA and k:
+        fr = r.sub(CONTEXT, n, "ava")
+        out = {"t": _AVA[n], "attribute": fr.text("attributeDesc"), "value": fr.octs("assertionValue").hex()}
+        if fr.more():
+            raise Malformed("trailing data in AttributeValueAssertion")
+        return out
+    if n == 4 and k:
+        fr = r.sub(CONTEXT, 4, "substrings")
+        out = {"t": "Substrings", "attribute": fr.text("type"), "initial": None, "any": [], "final": None}
+        sr = fr.sub(UNIVERSAL, 16, "substrings")
+        while sr.more():
+            c2, k2, n2, _h, _l = sr.peek()
+            if c2 != CONTEXT or k2 or n2 not in (0, 1, 2):
+                raise Malformed("bad substring choice")
+            v = sr.octs("substring", CONTEXT, n2).hex()
+            if n2 == 0:
+                out["initial"] = v
+            elif n2 == 1:
+                out["any"].append(v)
+            else:
+                out["final"] = v
+        if fr.more():
+            raise Malformed("trailing data in SubstringFilter")
+        return out
+    if n == 7 and not k:
+        return {"t": "Present", "attribute": r.text("present", CONTEXT, 7)}
+    if n == 9 and k:
+        fr = r.sub(CONTEXT, 9, "extensibleMatch")
+        out = {"t": "ExtensibleMatch", "rule": None, "attribute": None, "value": None, "dn_attributes": False}
+        if fr.more() and fr.peek()[:3] == (CONTEXT, False, 1):
+            out["rule"] = fr.text("matchingRule", CONTEXT, 1)
+        if fr.more() and fr.peek()[:3] == (CONTEXT, False, 2):
+            out["attribute"] = fr.text("type", CONTEXT, 2)
+        out["value"] = fr.octs("matchValue", CONTEXT, 3).hex()
+        if fr.more():
+            out["dn_attributes"] = fr.bool_("dnAttributes", CONTEXT, 4)
+        if fr.more():
+            raise Malformed("trailing data in MatchingRuleAssertion")
+        return out
+    if n == 1024 and not k:  # the harness' own custom filter (documented example)
+        return {"t": "CustomFilter", "value": r.text("custom filter", CONTEXT, 1024)}
+    s0, e0 = r.take(c, k, n, "filter")
+    return {"t": "Other", "tag": n, "raw": bytes(r.buf[s0:e0]).hex()}
+
+
+def wire_norm(m):
+    """Normal form for comparing a strictly decoded PDU with an expected abstract message: controls as
+    (oid, critical, value) triples, absent == empty referral."""
+    m = dict(m)
+    cs = []
+    for c in m.get("controls") or []:
+        oid, crit, val = control_wire(c)
+        cs.append([oid, bool(crit), None if val is None else bytes(val).hex()])
+    m["controls"] = cs
+    if "result" in m:
+        r = dict(m["result"])
+        if not r.get("referrals"):
+            r["referrals"] = None
+        m["result"] = r
+    return m
+
+
 def strict_decode(buf, allow_constructed_unbind=True):
     """Strictly decode ONE PDU that must span all of `buf`.
 
@@ -415,6 +519,53 @@ def strict_decode(buf, allow_constructed_unbind=True):
                     out["value"] = op.octs("responseValue", CONTEXT, 11).hex()
             if op.more():
                 raise Malformed("trailing data in %s" % kind)
+        elif kind == "BindRequest":
+            out["version"] = op.int_("version")
+            out["name"] = op.text("name")
+            out["auth"] = _dec_auth(op)
+            if op.more():
+                raise Malformed("trailing data in BindRequest")
+        elif kind == "SearchRequest":
+            out["base"] = op.text("baseObject")
+            out["scope"] = op.int_("scope", 10)
+            out["deref"] = op.int_("derefAliases", 10)
+            out["size_limit"] = op.int_("sizeLimit")
+            out["time_limit"] = op.int_("timeLimit")
+            out["types_only"] = op.bool_("typesOnly")
+            out["filter"] = _dec_filter(op, 0)
+            at = op.sub(UNIVERSAL, 16, "attributes")
+            out["attributes"] = []
+            while at.more():
+                out["attributes"].append(at.text("attribute selector"))
+            if op.more():
+                raise Malformed("trailing data in SearchRequest")
+        elif kind == "SearchResultEntry":
+            out["object_name"] = op.text("objectName")
+            al = op.sub(UNIVERSAL, 16, "attributes")
+            out["attributes"] = []
+            while al.more():
+                pa = al.sub(UNIVERSAL, 16, "PartialAttribute")
+                name = pa.text("type")
+                vs = pa.sub(UNIVERSAL, 17, "vals")
+                vals = []
+                while vs.more():
+                    vals.append(vs.octs("value").hex())
+                if pa.more():
+                    raise Malformed("trailing data in PartialAttribute")
+                out["attributes"].append({"name": name, "values": vals})
+            if op.more():
+                raise Malformed("trailing data in SearchResultEntry")
+        elif kind == "SearchResultReference":
+            out["uris"] = []
+            while op.more():
+                out["uris"].append(op.text("uri"))
+        elif kind == "ExtendedRequest":
+            out["name"] = op.text("requestName", CONTEXT, 0)
+            out["value"] = None
+            if op.more():
+                out["value"] = op.octs("requestValue", CONTEXT, 1).hex()
+            if op.more():
+                raise Malformed("trailing data in ExtendedRequest")
         else:
             out["raw"] = bytes(buf[op.p : op.end]).hex()
     out["controls"] = []
